@@ -140,7 +140,7 @@ def gen_query(rng):
         prev_t = [r['al'] for r in refs[:-1] if r['kind'] == 't']
         prev_all = [r['al'] for r in refs[:-1]]
         if kind == 't':
-            jt = rng.choice(['join', 'join', 'left join', 'inner join'] + (['right join', 'full join', 'left outer join'] if outer else []))
+            jt = rng.choice(['join', 'join', 'left join', 'inner join'] + (['right join', 'full join', 'left outer join', 'outer join', 'full outer join'] if outer else []))
             on = None if rng.random() < 0.08 or not prev_all else on_tree(rng, prev_t or prev_all, al, wild_on)
         else:
             jt = rng.choice(['join', 'join', 'join', 'left join'])
